@@ -123,8 +123,9 @@ __CPROVER_ensures ((__CPROVER_return_value >= 0 && !g_alloc_failed &&
 pboolean
 p_socket_check_connect_result (PSocket *socket, PError **error)
 __CPROVER_requires (WF_SOCK (socket) && !socket->closed && error == NULL && !g_getsockopt_fails)
-__CPROVER_assigns (g_errno, g_native, g_sockopts, g_last_fail_poll, ERR_GHOSTS, socket->connected)
+__CPROVER_assigns (g_errno, g_native, g_sockopts, g_last_fail_poll, g_so_error_read_at_polls, ERR_GHOSTS, socket->connected)
 __CPROVER_ensures ((__CPROVER_return_value == TRUE) == (g_so_error == 0))
+__CPROVER_ensures (g_so_error_read_at_polls == g_polls)   /* ghost time stamp of the SO_ERROR read */
 __CPROVER_ensures (__CPROVER_return_value == TRUE || __CPROVER_return_value == FALSE)
 __CPROVER_ensures (socket->connected == (g_so_error == 0))
 /* frame: 'connected' is a bit-field; an assigns target on it covers the whole storage unit, so the neighbours are pinned explicitly */
@@ -149,6 +150,8 @@ __CPROVER_ensures (socket->closed ==> (__CPROVER_return_value == FALSE && CLOSED
 /* TRUE: the connection is established (connect returned 0, or SO_ERROR == 0 after the wait) and the getter says so */
 __CPROVER_ensures (__CPROVER_return_value == TRUE ==> socket->connected)
 __CPROVER_ensures (__CPROVER_return_value == TRUE ==> (g_xfer_ok || (g_polls >= 1 && g_poll_rc == 1 && g_so_error == 0)))
+/* the outcome of an asynchronous connect is read AFTER the wait reported writability (before that SO_ERROR is still 0 whatever happens later) */
+__CPROVER_ensures ((__CPROVER_return_value == TRUE && !g_xfer_ok) ==> g_so_error_read_at_polls >= 1)
 __CPROVER_ensures ((!socket->closed && __CPROVER_return_value == FALSE) ==> (g_err_calls >= 1 && !(g_err_code == P_ERROR_IO_FAILED && g_err_native == EINTR)))
 /* non-blocking: in-progress is reported at once, no waiting */
 __CPROVER_ensures (!socket->blocking ==> g_polls == 0)
